@@ -8,6 +8,7 @@ pub mod c08;
 pub mod c09;
 pub mod c10;
 pub mod c11;
+pub mod c12;
 pub mod c15;
 pub mod c16;
 pub mod c17;
@@ -29,6 +30,7 @@ pub fn get(id: &str, tier: Tier) -> Option<Monitor> {
         "C09" => Some(c09::monitor(tier)),
         "C10" => Some(c10::monitor(tier)),
         "C11" => Some(c11::monitor(tier)),
+        "C12" => Some(c12::monitor(tier)),
         "C15" => Some(c15::monitor(tier)),
         "C16" => Some(c16::monitor(tier)),
         "C17" => Some(c17::monitor(tier)),
